@@ -347,7 +347,7 @@ def st_cases():
     catname = st.sampled_from(["atom_site", "entity", "struct", "cell", "exptl", "citation", "pdbx_x", "entity_poly"])
     value = st.one_of(
         st.sampled_from(["A", "B", "AA", "1", "2", "-3.5", "ATOM", "?", ".", "?", "HOH", "A-2", "x1"]),
-        st.sampled_from(["two words", "a b c", "O5'", "H5''", 'say "hi"', "it's", "N 1", "P 21 21 21", "multi\nline text", "semi;colon", "#hash", "_under", "data_x", "'q", '"q']),
+        st.sampled_from(["two words", "a b c", "O5'", "H5''", 'say "hi"', "it's", "N 1", "P 21 21 21", "multi\nline text", "inner line ends in blanks  \nsecond line", "tab at the end\t\nnext", "first\n   \nthird after a blank-only line", "semi;colon", "#hash", "_under", "data_x", "'q", '"q']),
         st.text(alphabet="ABCabc123", min_size=1, max_size=4),
     )
 
